@@ -3,8 +3,10 @@ CONSTANTS NB = 4
  Confs <- McConfs3
  NT = 3
  MaxDup = 1
+ Races = TRUE
  BugAddMiddle = FALSE
  BugTxLoopVar = FALSE
+ BugConfirmRace = FALSE
 INVARIANTS TypeOK ChainLinear Converges CacheSorted CacheKeepsUntilParent CacheOnlyWaiting ConfirmsKept TxOnce
 PROPERTY Forward
 CHECK_DEADLOCK FALSE
